@@ -581,6 +581,9 @@ func (s *KState) Checkpoint(step string) {
 			}
 			continue
 		}
+		// this watch is in order under its present name: an earlier rename of the file is history now
+		// (if only an ancestor directory is renamed later, kqueue has nothing to go by and nothing is demanded)
+		delete(s.ended, ino)
 		user := false
 		for u := range s.User {
 			ust, ok := stat(u)
